@@ -13,6 +13,23 @@ def case_extract(c):
         outs.append(r)
         if "exc" in r:
             break
+    if c.get("interleave") and "ok" in outs[-1]:
+        # extract a different grammar over the same classes (other depth mode, fewer considered classes),
+        # then look at the first Grammar object again: it must not have changed
+        def f2():
+            g1 = extract(c["decl"], classes)
+            o1 = observe_grammar(g1, classes)
+            other = dict(c["decl"], xdepth=not c["decl"]["xdepth"], considered=c["interleave"])
+            try:
+                extract(other, classes)
+            except BaseException:
+                pass
+            return [o1, observe_grammar(g1, classes)]
+        r2 = guarded(f2)
+        if "ok" in r2:
+            outs = [{"ok": x} for x in r2["ok"]]
+        else:
+            outs = [r2]
     res = {"extractions": outs}
     if c.get("usable") and "ok" in outs[-1]:
         def f():
